@@ -38,7 +38,7 @@ TIERS = {
     "quick": {"runs": 6000, "chunk": 40, "selftest": 32, "minimise_s": 60},
     "thorough": {"budget_s": 900, "chunk": 100, "selftest": 256, "minimise_s": 120},
 }
-PROBES = ["two_threads_in_anchor", "switch_in_resolve_forward_refs", "switch_in_registry", "switch_between_bytecodes", "lock_contended",
+PROBES = ["profiled_write_cut", "two_threads_in_anchor", "switch_in_resolve_forward_refs", "switch_in_registry", "switch_between_bytecodes", "lock_contended",
           "sequential_orders_disagree", "linearized_by_non_invoke_order"]
 
 
@@ -73,6 +73,9 @@ def w1_source(p):
         order = [a, b, f]
     for blk in order:
         lines += blk + [""]
+    if p.get("sub"):
+        # a subclass that declares nothing pending itself: what is pending sits in its base's parser
+        lines += ["class SA(A):", "    extra: int = 0", ""]
     return "\n".join(lines)
 
 
@@ -286,7 +289,7 @@ def _gen_ops_w1(rng, params, n):
                 d["bs"] = [{"y": rng.choice([0, 5, -3, "7"])} for _ in range(rng.choice([1, 2]))]
             if params.get("constrained") and rng.random() < 0.5:
                 d["pb"] = {"y": rng.choice([1, -1])}
-            ops.append({"op": "init", "cls": "A", "data": d})
+            ops.append({"op": "init", "cls": "SA" if params.get("sub") and rng.random() < 0.5 else "A", "data": d})
         elif r < 0.55:
             ops.append({"op": "init", "cls": "B", "data": {"y": rng.choice([1, -1]),
                                                             "a": {"x": 1, "b": {"y": rng.choice([2, -2])}}}})
@@ -306,13 +309,18 @@ def generate(rng, tier):
         counts[counts.index(max(counts))] -= 1
     if sc in ("W1", "W5", "W6"):
         p = {"b_ann": rng.choice(SPELL_OPT[:3] if sc != "W5" else SPELL_OPT), "bs_ann": rng.choice(SPELL_MANY),
-             "collect": rng.random() < 0.3, "constrained": rng.random() < 0.4, "func_first": rng.random() < 0.4}
+             "collect": rng.random() < 0.3, "constrained": rng.random() < 0.4, "func_first": rng.random() < 0.4,
+             "sub": rng.random() < 0.3}
         plan["params"] = p
         plan["threads"] = [_gen_ops_w1(rng, p, c) for c in counts]
         if sc == "W1" and rng.random() < 0.15:
             # every thread makes the first call of the same generator function
             for ops_ in plan["threads"]:
                 ops_[0] = {"op": "gen", "n": rng.choice([1, 2])}
+        if sc == "W1" and p["sub"] and rng.random() < 0.4:
+            # every thread starts with the first parse of the subclass
+            for ops_ in plan["threads"]:
+                ops_[0] = {"op": "init", "cls": "SA", "data": {"x": 1, "b": {"y": 1}}}
         if sc == "W6":
             # one thread declares (and maybe uses) new classes while the others make their first parses
             t = rng.randrange(nthreads)
@@ -386,12 +394,18 @@ def generate(rng, tier):
         pol = {"kind": "pct", "d": rng.choice([1, 2, 3]) if tier == "quick" else rng.choice([2, 3, 4, 6]), "seed": pseed}
     elif r < 0.9:
         pol = {"kind": "apct", "d": rng.choice([2, 3, 4]), "est": rng.choice([60, 150, 400]), "seed": pseed}
-    elif r < 0.97:
+    elif r < 0.985:
         # stop one thread inside the lazily-initialising code after i of its points there, run another one up to its j-th
         # point in the code that reads that state, then let the first finish: the shape of a read racing an initialisation
         t1 = rng.randrange(nthreads)
         t2 = rng.choice([t for t in range(nthreads) if t != t1])
-        if rng.random() < 0.6:
+        r2 = rng.random()
+        if r2 < 0.45:
+            # stop t1 just before one of the stores it makes into shared state -- which one: a fraction of the number it
+            # makes when it runs first and alone (profiled in a twin world) -- let t2 complete m-1 whole operations, then
+            # let t1 finish: a whole operation racing a half-done initialisation / registration
+            pol = {"kind": "acuts", "frac": rng.random(), "cuts": [[t1, None, "W"], [t2, rng.choice([2, 2, 3]), "O"]], "seed": pseed}
+        elif r2 < 0.7:
             # count only the lines that store into / read from the lazily initialised shared state
             pol = {"kind": "acuts", "cuts": [[t1, rng.randint(1, 60), "W"], [t2, rng.randint(1, 120), "R"]], "seed": pseed}
         else:
@@ -450,8 +464,18 @@ def execute(plan):
     base_order = list(ops_all)
     seq_cache = {tuple(base_order): sequential_outcomes(plan, base_order)}
 
+    pol = copy.deepcopy(plan["schedule"])
+    if pol.get("frac") is not None:
+        # profile: the cut thread runs first and alone in a twin world; how many stores into shared state does it make?
+        t1 = pol["cuts"][0][0]
+        pmod = build_world(plan)
+        prof = Scheduler({"kind": "sequential", "order": [t1] + [t for t in range(nth) if t != t1], "seed": 0}, nth, budget=400_000)
+        prof.run([[(lambda op=op: run_op(pmod, op, plan["params"])) for op in ops] for ops in plan["threads"]])
+        nw = prof.hotw_points[t1]
+        pol["cuts"][0][1] = 1 + int(pol["frac"] * nw) if nw else 1
+        res.ev("profiled-cut", t1, nw, pol["cuts"][0][1])
+        res.stats["probe:profiled_write_cut"] += 1
     mod = build_world(plan)
-    pol = dict(plan["schedule"])
     if pol["kind"] == "pct":
         pol.setdefault("est", 1500 * len(ops_all))
     # (apct carries its own estimate of the number of anchor points)
